@@ -37,6 +37,23 @@ def main():
     a = ap.parse_args()
     prop = a.prop.upper()
     tier = a.tier if a.tier in ("quick", "thorough") else "quick"
+    # one scratch directory per run for every temporary database / directory
+    # the package, the checks and their (possibly killed) children create;
+    # removed on the way out
+    import atexit
+    import shutil
+    import tempfile
+
+    scratch = tempfile.mkdtemp(prefix=f"verif-{prop}-")
+    os.environ["TMPDIR"] = scratch
+    tempfile.tempdir = scratch
+    owner = os.getpid()
+
+    def _cleanup():
+        if os.getpid() == owner:
+            shutil.rmtree(scratch, ignore_errors=True)
+
+    atexit.register(_cleanup)
     try:
         env.setup()
         mod = importlib.import_module(find_module(prop))
